@@ -134,14 +134,6 @@ theorem drawPt_cases (cast : K → K) (life : Bool) (bInf b : K) :
     ∀ d, drawPt life bInf (cast b, some (cast d)) = (cast b, if life then cast d - cast b else cast d) :=
   ⟨rfl, fun _ => rfl⟩
 
-theorem hasInf_castDgm (cast : K → K) (ds : List (Dgm K)) :
-    hasInf (ds.map (castDgm cast)) = hasInf ds := by
-  unfold hasInf castDgm
-  rw [← List.map_flatten, List.any_map]
-  congr 1
-  funext p
-  cases h : p.2 <;> simp [h]
-
 /-- **the infinity line**: `y_down < b_inf < y_up` whenever the y-limits have positive height, and the
     line `[x_down, x_up] × {b_inf}` (dashed, black, labelled `∞`, on the given axes) is among the lines
     exactly once if some plotted diagram has an infinite death and not at all otherwise.  (`∞` entries
@@ -242,21 +234,6 @@ theorem xy_range_respected {cast : K → K} {arg : DgmsArg K} {o : Opts K} {fig 
 /-- non-vacuity of `xy_range_respected` -/
 example : ∃ fig, plotDiagrams (α := ℚ) id (.single [(0, some 1), (1, none)])
     { xyRange := some (-1, 5, -2, 6), lifetime := true } = .ok fig := ⟨_, rfl⟩
-
-/-- the labelled artists in insertion order — what `Axes.legend` lists -/
-def labelsOf : List (Artist K) → List String
-  | [] => []
-  | .scatter _ _ l :: as => l :: labelsOf as
-  | .line _ _ _ _ (some l) :: as => l :: labelsOf as
-  | .line _ _ _ _ none :: as => labelsOf as
-
-theorem labelsOf_append (a b : List (Artist K)) : labelsOf (a ++ b) = labelsOf a ++ labelsOf b := by
-  induction a with
-  | nil => rfl
-  | cons x t ih =>
-    cases x with
-    | scatter ax pts l => simp [labelsOf, ih]
-    | line ax xs ys st l => cases l <;> simp [labelsOf, ih]
 
 /-- **title, axis labels, legend as requested**: the title is the requested one (none if `None`); the
     legend is drawn iff `legend=True`; its entries are `∞` (iff some plotted death is infinite) followed by
@@ -400,9 +377,6 @@ theorem real_constants :
     Real.cos (Real.pi / 4) * Real.cos (Real.pi / 4) = 1 / 2 ∧
     Real.sin (Real.pi / 4) = Real.cos (Real.pi / 4) :=
   ⟨cos_pi_div_four_mul_self, sin_pi_div_four_eq_cos⟩
-
-theorem isOk_iff {ε α : Type} (e : Except ε α) : e.isOk = true ↔ ∃ a, e = .ok a := by
-  cases e <;> simp [Except.isOk, Except.toBool]
 
 /-- non-vacuity of the two matching theorems at `ℝ` with the real constants: rows of all three kinds and
     a `(-1,-1)` row; an empty first diagram for the Wasserstein plot -/
